@@ -23,6 +23,10 @@ PY = {
     "except-deep": (["try:", "    x = 0", "except E:"], []),
     "finally-deep": (["try:", "    x = 0", "finally:"], []),
     "match": (["match v:", "    case 1:"], ["    case _:", "        x = 0"]),
+    # a `for` / `try` by the documentation's wording, other node classes in the ast
+    "async-for": (["async for i in xs:"], []),
+    "try-star": (["try:"], ["except* E:", "    x = 0"]),
+    "except-star-deep": (["try:", "    x = 0", "except* E:"], []),
 }
 TS = {
     "if": (["if (c) {"], ["}"]),
